@@ -374,3 +374,8 @@ TRUSTED_BASE = [
     "Generated.v writer (tables read from /repo by introspection and ast)",
     "CPython, sympy and the other libraries qlasskit itself runs on",
 ]
+
+
+def is_ret_name(name):
+    """The names the translator gives the return bits: `_ret` or `_ret.<index>...` (a user variable such as `_retval` is an ordinary intermediate)."""
+    return name == "_ret" or name.startswith("_ret.")
